@@ -50,13 +50,20 @@ PROPS = {
                      "ARP handling is unreachable (doARP cannot be set from the configuration)"],
     ),
     "C14": dict(
-        modules=["HT.Props.C14"],
+        modules=["HT.Props.C14", "HT.Props.C14Handoff"],
+        gen=True,
         streams=["c14tcp"],
         rule="scripted TCP clients against the real handleTCP (synchronous injection through the verif hook): client "
              "ISN boundary set x segment plans x FIN variants, server ISS boundary values via sequence-space rebase, "
              "no-ARP and route-fallback peers, pairs of simultaneous connections (port-swapped, same ports/different "
              "peers) under all (thorough) or every 5th (quick) interleaving of their steps, seeded random 1..4 "
-             "connections with malformed noise frames; every emitted frame decoded independently and checked; "
+             "connections with malformed noise frames; every emitted frame decoded independently and checked; the six "
+             "ports whose handler reports the first bytes (23, 443, 139, 445, 1433, 6379; category checked), ports 80/9200 "
+             "(request parsed and answered: @canhttp, oracle only: reply segments' sequence numbers and checksums), "
+             "connections steered (hooks) so that checksum sums fold twice, and @canhandoff: 9 x 250 connections whose "
+             "first pushed segment follows the handshake without pause (races of the receive loop with the handler "
+             "goroutines); the two-goroutine hand-off itself is a Lean model (HT.Handoff, all schedules) tied to the "
+             "source by the regenerated channel capacity; "
              "non-trivial = handshake completed; distinct = distinct case line",
         trusted=COMMON_TB + ["verif hook listener/canary/verif_hooks_linux.go",
                              "modelled, not verified: Go scheduler (handler goroutine run to completion at its wake-up), "
@@ -218,15 +225,20 @@ PROPS = {
         assumptions=["crash points of the key-value items are the states between atomic Sets"],
     ),
     "C16": dict(
-        modules=["HT.Props.C16"],
+        modules=["HT.Props.C16", "HT.Props.C16Write"],
+        gen=True,
         streams=["c16agent"],
         rule="agent sessions against the real session loop (verif hook) over a loopback TCP pair: one connection with "
              "0..20 data messages of 0..4000 bytes; missing eof, data for unknown connections, data after eof, duplicate "
              "hello, ping, udp relay; every interleaving (thorough) / every 4th (quick) of two connections' message "
              "sequences for six address-pair shapes incl. look-alike pairs (10.0.0.1:22+21.2.3.4 vs 10.0.0.1:222+1.2.3.4) "
              "and IPv6; seeded 1..4 connections with random interleavings, >= 2 left open at disconnect; the model side "
-             "also encodes the messages and re-parses the byte stream with the Lean codec; non-trivial = at least one "
-             "connection announced; distinct = distinct case line",
+             "also encodes the messages and re-parses the byte stream with the Lean codec; codec round trips of every "
+             "message type (agentcodec: Hello, EOF, ReadWriteTCP/UDP with payloads 0..65000 around the 4096-byte buffer "
+             "multiples, Handshake, HandshakeResponse with 0..255 addresses) compared with the Lean encoder/decoder byte for "
+             "byte; the stub services answer with reply streams written in chunk plans up to 200000 bytes and the payloads "
+             "tagged with the pair must concatenate to them; message sizes of one Write compared with the model's chunks; "
+             "non-trivial = at least one connection announced; distinct = distinct case line",
         trusted=COMMON_TB + ["verif hook listener/agent/verif_hooks.go",
                              "libdisco transport replaced by a plain TCP pair (noise handshake and encryption not exercised)",
                              "github.com/honeytrap/protocol encoder/decoder (library, compared through the codec runs)"],
